@@ -89,12 +89,17 @@ def reject_env(site, reject="false"):
     return None
 
 
-def check_gate(body, site, accept, all_units=()):
-    """paths on which the verdict at `site` rejects and an accept outcome is still reached"""
+def check_gate(body, site, accept, all_units=(), verdict_accepts=False):
+    """paths on which the verdict at `site` rejects and an accept outcome is still reached
+    (verdict_accepts=True: the same question for a bool verdict that says accept)"""
     enc = reject_env(site)
     if enc is None:
         return {"unsupported-verdict-type": []}
     fixed_locals, fixed_places, env0 = enc
+    if verdict_accepts:
+        if site["ty"]["s"] != "bool":
+            return {"unsupported-verdict-type": []}
+        fixed_locals = {site["local"]: True}
     # whole-value copies of the verdict into single-definition temporaries carry the same facts
     changed = True
     while changed:
@@ -117,6 +122,31 @@ def check_gate(body, site, accept, all_units=()):
     ex.all_units = all_units
     return ex.explore(site["start"], env0=env0, blocked={site["bb"]}, accept=accept,
                       skip_first_stmts=False), ex
+
+
+SELECTING = ("filter", "partition", "find", "position", "rposition", "skip_while", "take_while", "extract_if", "filter_map", "find_map")
+
+
+def closure_consumers(prog, closure_path):
+    """last path segments of the calls in the defining body that receive this closure as an argument"""
+    from .expr import Chaser, call_name, strip
+    parent = closure_path.rsplit("::{closure", 1)[0]
+    out = []
+    for p, b in prog.bodies.items():
+        if p != parent and not p.startswith(parent + "::{closure"):
+            continue
+        if p == closure_path or b.is_promoted:
+            continue
+        ch = None
+        for bb, t in b.calls():
+            for a in t["args"]:
+                ch = ch or Chaser(b)
+                x = strip(ch.origin(a))
+                while x[0] in ("ref", "deref"):
+                    x = strip(x[1])
+                if x[0] == "agg" and x[1][0] == "closure" and x[1][1] == closure_path:
+                    out.append((call_name(t) or "").rsplit("::", 1)[-1])
+    return out
 
 
 def verdict_is_used(body, site):
